@@ -42,22 +42,21 @@ TRUSTED = [
 ASSUMPTIONS = [
     "proved fragment = programs accepted by wf_prog (coq/Model/C01_Wf.v); everything else of the property is 'compared, not proved'",
     "int/uint are 32 bit (documented GopherJS difference): the native reference is built with int32/uint32 in their place",
-    "theorems exclude the four input classes on which /repo deviates (known findings): int8/int16 MinInt / -1, -x for x = MinInt of a signed kind, signed x >> c with constant c >= 32 and x < 0, a panicking left operand of a shift whose count is >= 32",
 ]
-TECHNIQUE = ("Coq: executable MiniGo / MiniJS interpreters and a Gallina mirror of the translator; unbounded theorems for the operator templates "
-             "(all kinds, all operand values); program-level simulation checked per generated program by evaluation inside Coq (translation "
-             "validation) + structural tie (parsed real output = compile p) + differential runs against node and native Go")
-LEVEL_TEXT = ("Machine-checked (no axioms): for every integer kind up to 32 bit, every binary operator (+ - * / % & | ^ &^ << >>), unary - ^ and "
-              "every conversion, and ALL operand values of the kind, the JavaScript that the Gallina mirror of the translator emits "
-              "(fixNumber, $imul, the _q/_r/y temporaries, $min) evaluates to Go's result, throws exactly when Go panics and stays in range, "
-              "outside four recorded deviation classes which are proved to be real deviations (refuted theorems). On every run the mirror "
-              "is compared for exact equality (temp names and var list included) with the parsed output of the real compiler on generated "
-              "programs; the parsed output and the mirror's output are executed by the MiniJS interpreter inside Coq and compared with the "
-              "MiniGo interpreter; node and native Go are compared with the model and with each other.")
-LEVEL_NOTE = ("partial: the whole-program simulation theorem for the stage-1 fragment (C01_stage1_statement: statements, loops, labels, "
-              "temp allocation) is stated but NOT proved; it is validated per generated program by evaluation in Coq. The rest of the property "
-              "(switch, goto, composite types, closures, methods ...) is compared against native Go on generated programs, not proved. "
-              "GoSem/JsSem are validated differentially (native Go, V8), not derived from a mechanised standard.")
+TECHNIQUE = ("Coq proof of a verified mini-compiler: forward simulation MiniGo -> MiniJS (same fuel) for the Gallina mirror of the translator, "
+             "by induction on fuel and statements; tied to /repo on every run by exact structural equality (parsed real output = compile p), "
+             "translation validation in Coq, and differential runs against node and native Go")
+LEVEL_TEXT = ("Machine-checked, no axioms, no excluded inputs: for every well-formed MiniGo program (one function; int8..uint and bool locals; "
+              "all integer operators, conversions, define/assign/op-assign/++/--, if / else-if / else, for with init/cond/post, labelled "
+              "break/continue, println) whose Go run ends within the fuel, the JavaScript produced by the Gallina mirror of the translator "
+              "prints the same lines and ends the same way (normal exit or the division panic), with the same fuel. Includes the temp-name "
+              "allocator (_q _r x y numbered against user variables), else-if conditions translated before bodies, the post statement "
+              "duplicated at every continue, and wrap-around of every operator at every width. On every run the mirror is compared for "
+              "exact equality with the parsed output of the real compiler on generated programs, the parsed output is executed by the MiniJS "
+              "interpreter inside Coq against the MiniGo interpreter, and node / native Go are compared with the model and with each other.")
+LEVEL_NOTE = ("partial w.r.t. the property text only in scope: the theorem covers the stage-1 fragment (no calls, no composite types); the "
+              "rest of the property (switch, goto, composite types, closures, methods, type switches ...) is compared against native Go on "
+              "generated programs, not proved. GoSem/JsSem are validated differentially (native Go, V8), not derived from a mechanised standard.")
 
 FUEL = 400
 SIG_OF_CLASS = {}      # no recorded deviation classes: all former ones are repaired in /repo
